@@ -2,7 +2,9 @@
 //
 // Input  : (tree updates)
 //
-//	tree    := (T crit [TRIGGER]) | (C crit [TRIGGER]) | (A tree*)
+//	tree    := (T crit [TRIGGER]) | (C crit [TRIGGER]) | (A tree*) | (N tree*)
+//	           -- (N …): aggregator made by workflow.NewAggregatorRole (born UNKNOWN/UNDEFINED) instead of loaded from YAML
+//	           -- (born STANDBY/INACTIVE); only the root and children of an N can be an N. See buildPreset, preset.go.
 //	           -- task leaf, call leaf, aggregator; the root is an (A …). A leaf with a third element is a HOOK:
 //	           -- its YAML has `trigger: TRIGGER` (e.g. before_CONFIGURE, after_START_ACTIVITY+10), so the loaded role
 //	           -- has non-empty Traits.Trigger/Await and the 30 s hook timeout. Critical or not is said by `crit` alone.
@@ -103,7 +105,77 @@ func yamlOf(n *sx.Node, name string, indent string, b *strings.Builder, top bool
 	}
 }
 
+// hasN: the tree contains a constructed aggregator `(N …)` (see buildPreset).
+func hasN(tree *sx.Node) bool {
+	if tree.At(0).Str() == "N" {
+		return true
+	}
+	if tree.At(0).Str() == "A" {
+		for i := 1; i < tree.Len(); i++ {
+			if hasN(tree.At(i)) {
+				return true
+			}
+		}
+	}
+	return false
+}
+
+// buildPreset builds a tree whose upper aggregators `(N kids…)` are made by the exported constructor
+// workflow.NewAggregatorRole (state and status are the ZERO values UNKNOWN/UNDEFINED: such a role has folded
+// nothing yet), while everything below an N that is not an N itself is loaded from YAML as before (every loaded
+// role is born STANDBY/INACTIVE — the same presets taskRole.copy() gives an iterator-generated task). So the
+// initial values of leaves and of their ancestors differ and no aggregator is the fold of its subtree before the
+// first update reaches it. An N can only sit below an N (YAML cannot contain one).
+func buildPreset(tree *sx.Node, name string) (workflow.Role, error) {
+	if tree.At(0).Str() != "N" {
+		// load (A tree) and take its only child: the loaded role itself, parent set below
+		var b strings.Builder
+		wrap := sx.L(sx.A("A"), tree)
+		yamlOfNamed(wrap, "w", []string{name}, &b)
+		w := workflow.NewAggregatorRole("", nil)
+		if err := yaml.Unmarshal([]byte(b.String()), w); err != nil {
+			return nil, fmt.Errorf("yaml: %v\n%s", err, b.String())
+		}
+		if len(w.GetRoles()) != 1 {
+			return nil, fmt.Errorf("c11: wrapper loaded %d roles", len(w.GetRoles()))
+		}
+		return w.GetRoles()[0], nil
+	}
+	var kids []workflow.Role
+	for i := 1; i < tree.Len(); i++ {
+		k, err := buildPreset(tree.At(i), fmt.Sprintf("%s_%d", name, i-1))
+		if err != nil {
+			return nil, err
+		}
+		kids = append(kids, k)
+	}
+	return workflow.NewAggregatorRole(name, kids), nil
+}
+
+// yamlOfNamed: yamlOf for a wrapper whose children get the given names.
+func yamlOfNamed(wrap *sx.Node, name string, kidNames []string, b *strings.Builder) {
+	fmt.Fprintf(b, "name: %s\nroles:\n", name)
+	for i := 1; i < wrap.Len(); i++ {
+		yamlOf(wrap.At(i), kidNames[i-1], "  ", b, false)
+	}
+}
+
 func build(tree *sx.Node) (workflow.Role, error) {
+	if hasN(tree) {
+		root, err := buildPreset(tree, "r")
+		if err != nil {
+			return nil, err
+		}
+		workflow.LinkChildrenToParents(root)
+		if err := checkTraits(tree, root); err != nil {
+			return nil, err
+		}
+		// the class needs what it says: constructed aggregators start at the zero values, loaded roles at the presets
+		if err := checkPresets(tree, root); err != nil {
+			return nil, err
+		}
+		return root, nil
+	}
 	var b strings.Builder
 	yamlOf(tree, "r", "", &b, true)
 	root := workflow.NewAggregatorRole("", nil)
@@ -119,8 +191,27 @@ func build(tree *sx.Node) (workflow.Role, error) {
 
 // checkTraits makes sure the loaded leaves ARE what the input says (a hook really has a non-empty
 // Trigger, criticality as written): a tree the YAML step built differently is infrastructure trouble.
+func checkPresets(tree *sx.Node, r workflow.Role) error {
+	var wantS sm.State = sm.STANDBY
+	var wantU task.Status = task.INACTIVE
+	if tree.At(0).Str() == "N" {
+		wantS, wantU = sm.State(0), task.Status(0)
+	}
+	if r.GetState() != wantS || r.GetStatus() != wantU {
+		return fmt.Errorf("c11: %s born %s/%s", tree.String(), stName(r.GetState()), suName(r.GetStatus()))
+	}
+	if k := tree.At(0).Str(); k == "A" || k == "N" {
+		for i, c := range r.GetRoles() {
+			if err := checkPresets(tree.At(i+1), c); err != nil {
+				return err
+			}
+		}
+	}
+	return nil
+}
+
 func checkTraits(tree *sx.Node, r workflow.Role) error {
-	if tree.At(0).Str() == "A" {
+	if k := tree.At(0).Str(); k == "A" || k == "N" {
 		kids := r.GetRoles()
 		if len(kids) != tree.Len()-1 {
 			return fmt.Errorf("c11: %d children loaded for %s", len(kids), tree.String())
@@ -285,7 +376,7 @@ func hookTags(tree *sx.Node) []string {
 	seen := map[string]bool{}
 	var walk func(n *sx.Node)
 	walk = func(n *sx.Node) {
-		if n.At(0).Str() == "A" {
+		if k := n.At(0).Str(); k == "A" || k == "N" {
 			for i := 1; i < n.Len(); i++ {
 				walk(n.At(i))
 			}
@@ -384,6 +475,8 @@ func generate(tier string, r *rng.R) []fw.Case {
 	for i := 0; i < n; i++ {
 		cs = append(cs, genCase(r.Fork(), maxUpd))
 	}
+	// repeated reports and trees whose leaves and ancestors are born with different values (preset.go)
+	cs = append(cs, presetCases(tier, r.Fork())...)
 	// concurrent delivery under a controlled interleaving (conc.go)
 	cs = append(cs, generateConc(tier, r.Fork())...)
 	return cs
@@ -401,7 +494,7 @@ func nontrivial(input, obs string) bool {
 	leaves, aggs := 0, 0
 	var walk func(n *sx.Node)
 	walk = func(n *sx.Node) {
-		if n.At(0).Str() == "A" {
+		if k := n.At(0).Str(); k == "A" || k == "N" {
 			aggs++
 			for i := 1; i < n.Len(); i++ {
 				walk(n.At(i))
@@ -447,6 +540,11 @@ func init() {
 			"FIXED cases (tag hook-order): a leaf H (critical/non-critical task or call hook, or a plain task) next to an ordinary critical sibling S " +
 			"in 5 (thorough 6) tree shapes, H and S each get one value (ERROR/healthy pairs) in BOTH arrival orders, cold or after a common " +
 			"STANDBY, followed by one more healthy update of S. " +
+			"REPEATED REPORTS and NON-UNIFORM PRESETS (tags repeat-update, first-report-equals-preset, preset-tree): update sequences in which a leaf is " +
+			"sent the value it already holds (also as its very first update: the preset STANDBY/INACTIVE), on loaded trees and on trees whose upper " +
+			"aggregators `(N …)` are made by workflow.NewAggregatorRole (born UNKNOWN/UNDEFINED, nothing folded yet) over loaded subtrees (born " +
+			"STANDBY/INACTIVE like the copies an iterator generates); fixed shapes x report scripts + random ones; on N-trees Spec = after every status update " +
+			"every aggregator above the updated leaf is the fold of its children and the leaf holds the value. " +
 			"CONCURRENT cases (tag conc): 2..4 goroutines deliver UpdateState to the real roles under a controlled interleaving (held in SendEvent " +
 			"between a role's merge and its parent's, and in GetState of every child a fold reads; lock waits observed in the goroutine dump); the " +
 			"schedule is replayed by the Lean small-step model, outcome of every entry and every role's state/status at quiescence are compared, " +
@@ -458,6 +556,8 @@ func init() {
 		Workers: 8,
 		TrustedBase: []string{
 			"harness/props/c11 (YAML builder, tree dump)", "gopkg.in/yaml.v3 unmarshalling of the role union",
+			"harness/props/c11 buildPreset: (N …) nodes are workflow.NewAggregatorRole(name, children) linked with workflow.LinkChildrenToParents; " +
+				"the born values (N: UNKNOWN/UNDEFINED, loaded: STANDBY/INACTIVE) are checked on the built roles before the first update",
 			"harness/props/c11/conc.go: the controller (hold points, replacement of children by gated roles through reflection, " +
 				"reading 'waits for a SafeState lock' from runtime.Stack); lean Model/RoleTreeConc.lean macroStep/replay (the replay policy: not covered by a theorem, " +
 				"it only selects a fine schedule, the compared states are exec of that schedule)",
@@ -767,6 +867,49 @@ func genFoldFacts(repo string) (string, error) {
 		}
 	}
 	list("leafForwards", "leaf roles: every call on t.parent in updateState/updateStatus as (receiver.function: conditions around it, call).", fw2)
+	// every way OUT of an update function before its parent call, and the parent calls of the aggregator:
+	// "a report is handed upward whether or not it changed this role" (Model/RoleTraits updStateT/updStatusT)
+	var exits, aggFw [][2]string
+	for _, spec := range [][3]string{
+		{"core/workflow/taskrole.go", "*taskRole", "updateState"}, {"core/workflow/taskrole.go", "*taskRole", "updateStatus"},
+		{"core/workflow/callrole.go", "*callRole", "updateState"}, {"core/workflow/callrole.go", "*callRole", "updateStatus"},
+		{"core/workflow/aggregatorrole.go", "*aggregatorRole", "updateState"}, {"core/workflow/aggregatorrole.go", "*aggregatorRole", "updateStatus"},
+	} {
+		fd, err := funcOf(spec[0], spec[1], spec[2])
+		if err != nil {
+			return "", err
+		}
+		for _, r := range guardStacks(fset, fd.Body, func(st ast.Stmt) (string, bool) {
+			switch x := st.(type) {
+			case *ast.BranchStmt:
+				return str(x), true
+			case *ast.ReturnStmt:
+				return "return", true
+			case *ast.ExprStmt:
+				if s := str(x.X); strings.HasPrefix(s, "panic(") {
+					return "panic", true
+				}
+			}
+			return "", false
+		}) {
+			exits = append(exits, [2]string{spec[1] + "." + spec[2] + ": " + r[0], r[1]})
+		}
+		if spec[1] != "*aggregatorRole" {
+			continue
+		}
+		for _, r := range guardStacks(fset, fd.Body, func(st ast.Stmt) (string, bool) {
+			if es, ok := st.(*ast.ExprStmt); ok {
+				if s := str(es.X); strings.HasPrefix(s, "r.parent.") {
+					return s, true
+				}
+			}
+			return "", false
+		}) {
+			aggFw = append(aggFw, [2]string{spec[1] + "." + spec[2] + ": " + r[0], r[1]})
+		}
+	}
+	list("updateExits", "task/call/aggregator roles: every return/break/continue/goto/panic statement of updateState/updateStatus as (receiver.function: conditions around it, statement).", exits)
+	list("aggForwards", "aggregator role: every call on r.parent in updateState/updateStatus as (receiver.function: conditions around it, call).", aggFw)
 	b.WriteString("end Gen\n")
 	return b.String(), nil
 }
